@@ -93,3 +93,165 @@ def named_wavelets(rng, k):
 def load_replay(path):
     with open(path) as f:
         return json.load(f)
+
+
+# ---------------------------------------------------------------------------
+# generic correspondence generator over the DWT ops
+# ---------------------------------------------------------------------------
+
+def outlen(m, N, L):
+    return (N + 1) // 2 if m == 2 else (N + L - 1) // 2
+
+
+def synlen(m, n, L):
+    return 2 * n if m == 2 else 2 * n - L + 2
+
+
+def pyramid_shapes_1d(N, L, m, J):
+    """band lengths (finest first) and lowpass length of a J-level forward transform"""
+    hs = []
+    for _ in range(J):
+        N = outlen(m, N, L)
+        hs.append(N)
+    return hs, N
+
+
+def dwt_cases(ck, n, ops, modes=None, Lmax=None, Nmax=None):
+    """random structured cases for the ops named in `ops` (names of driver ops)"""
+    rng = ck.rng
+    q = ck.tier == 'quick'
+    Lmax = Lmax or (12 if q else 20)
+    Nmax = Nmax or (24 if q else 48)
+    Smax = 14 if q else 28
+    modes = modes or gen.MODES5
+    for it in range(n):
+        op = ops[it % len(ops)]
+        L = rng.randint(2, Lmax)
+        m = rng.choice(modes)
+        w0 = gen.int_filter(rng, L); w1 = gen.int_filter(rng, L)
+        L2 = rng.randint(2, 8)
+        r0 = gen.int_filter(rng, L2); r1 = gen.int_filter(rng, L2)
+        nb, c = rng.choice([(1, 1), (1, 1), (2, 1), (1, 2), (2, 3)])
+        N = gen.pick_len(rng, L, Nmax)
+        H = gen.pick_len(rng, L, Smax); W = gen.pick_len(rng, L2, Smax)
+        J = rng.randint(1, 3 if q else 4)
+        tag = {'mode': gen.MODE_NAME[m], 'L': L, 'N': N, 'L2': L2, 'H': H, 'W': W}
+        if op == 'afb1d':
+            ax = rng.choice([2, 3])
+            if rng.random() < 0.4:
+                eye = np.eye(N).reshape(N, 1, N, 1) if ax == 2 else np.eye(N).reshape(N, 1, 1, N)
+                yield rt.Case('Z', 'afb1d', [ax, m], [w0, w1, eye], dict(tag, what='operator'))
+            else:
+                other = rng.randint(1, 3)
+                shape = (nb, c, N, other) if ax == 2 else (nb, c, other, N)
+                yield rt.Case('Z', 'afb1d', [ax, m], [w0, w1, gen.int_tensor(rng, shape)], tag)
+        elif op == 'sfb1d':
+            ax = rng.choice([2, 3]); k = rng.randint(1, Nmax // 2)
+            if rng.random() < 0.4:
+                lo = np.concatenate([np.eye(k), np.zeros((k, k))]); hi = np.concatenate([np.zeros((k, k)), np.eye(k)])
+                sh = (2 * k, 1, k, 1) if ax == 2 else (2 * k, 1, 1, k)
+                yield rt.Case('Z', 'sfb1d', [ax, m], [w0, w1, lo.reshape(sh), hi.reshape(sh)], dict(tag, n=k, what='operator'))
+            else:
+                other = rng.randint(1, 3)
+                shape = (nb, c, k, other) if ax == 2 else (nb, c, other, k)
+                yield rt.Case('Z', 'sfb1d', [ax, m], [w0, w1, gen.int_tensor(rng, shape), gen.int_tensor(rng, shape)], dict(tag, n=k))
+        elif op == 'afb1d_atrous':
+            ax = rng.choice([2, 3]); d = rng.choice([1, 2, 4]); other = rng.randint(1, 3)
+            shape = (nb, c, N, other) if ax == 2 else (nb, c, other, N)
+            yield rt.Case('Z', 'afb1d_atrous', [ax, rng.choice([0, 1, 4, 6]), d], [w0, w1, gen.int_tensor(rng, shape)], dict(tag, d=d))
+        elif op == 'AFB1D_fwd':
+            yield rt.Case('Z', 'AFB1D_fwd', [m], [w0, w1, gen.int_tensor(rng, (nb, c, N))], tag)
+        elif op == 'AFB1D_bwd':
+            K = outlen(m, N, L)
+            yield rt.Case('Z', 'AFB1D_bwd', [m, N], [w0, w1, gen.int_tensor(rng, (nb, c, K)), gen.int_tensor(rng, (nb, c, K))], tag)
+        elif op == 'SFB1D_fwd':
+            k = rng.randint(1, Nmax // 2)
+            yield rt.Case('Z', 'SFB1D_fwd', [m], [w0, w1, gen.int_tensor(rng, (nb, c, k)), gen.int_tensor(rng, (nb, c, k))], dict(tag, n=k))
+        elif op == 'SFB1D_bwd':
+            k = rng.randint(1, Nmax // 2); S = synlen(m, k, L)
+            if S >= 1:
+                yield rt.Case('Z', 'SFB1D_bwd', [m, k, rng.choice([1, 2, 3])], [w0, w1, gen.int_tensor(rng, (nb, c, S))], dict(tag, n=k))
+        elif op == 'AFB2D_fwd':
+            yield rt.Case('Z', 'AFB2D_fwd', [m], [r0, r1, w0, w1, gen.int_tensor(rng, (nb, c, H, W))], tag)
+        elif op == 'AFB2D_bwd':
+            KH = outlen(m, H, L); KW = outlen(m, W, L2)
+            yield rt.Case('Z', 'AFB2D_bwd', [m, H, W], [r0, r1, w0, w1, gen.int_tensor(rng, (nb, c, KH, KW)), gen.int_tensor(rng, (nb, c, 3, KH, KW))], tag)
+        elif op in ('SFB2D_fwd', 'sfb2d', 'sfb2d_nonsep', 'SFB2D_bwd'):
+            kh = rng.randint(1, Smax // 2); kw = rng.randint(1, Smax // 2)
+            lo = gen.int_tensor(rng, (nb, c, kh, kw)); hi = gen.int_tensor(rng, (nb, c, 3, kh, kw))
+            t2 = dict(tag, kh=kh, kw=kw)
+            if op == 'SFB2D_fwd':
+                yield rt.Case('Z', 'SFB2D_fwd', [m], [r0, r1, w0, w1, lo, hi], t2)
+            elif op == 'sfb2d':
+                yield rt.Case('Z', 'sfb2d', [m], [w0, w1, r0, r1, lo, hi[:, :, 0], hi[:, :, 1], hi[:, :, 2]], t2)
+            elif op == 'sfb2d_nonsep':
+                yield rt.Case('Z', 'sfb2d_nonsep', [m], [w0, w1, r0, r1, np.concatenate([lo[:, :, None], hi], axis=2)], t2)
+            else:
+                SH = synlen(m, kh, L); SW = synlen(m, kw, L2)
+                if SH >= 1 and SW >= 1:
+                    yield rt.Case('Z', 'SFB2D_bwd', [m, kh, kw, rng.choice([1, 2, 3])], [r0, r1, w0, w1, gen.int_tensor(rng, (nb, c, SH, SW))], t2)
+        elif op == 'DWT1DForward':
+            yield rt.Case('Z', 'DWT1DForward', [m, J], [w0, w1, gen.int_tensor(rng, (nb, c, N))], dict(tag, J=J))
+        elif op == 'DWT1DInverse':
+            hs, nl = pyramid_shapes_1d(N, L, m, J)
+            yl = gen.int_tensor(rng, (nb, c, nl))
+            # a None level is only shape-consistent where no un-padding is needed
+            yh = []
+            for j, hl in enumerate(hs):
+                can_none = True if j + 1 == J else (synlen(m, hs[j + 1], L) == hl)
+                yh.append(None if (can_none and rng.random() < 0.25) else gen.int_tensor(rng, (nb, c, hl)))
+            yield rt.Case('Z', 'DWT1DInverse', [m], [w0, w1, yl] + yh, dict(tag, J=J))
+        elif op in ('DWTForward', 'afb2d', 'afb2d_nonsep'):
+            x = gen.int_tensor(rng, (nb, c, H, W))
+            if op == 'afb2d':
+                yield rt.Case('Z', 'afb2d', [m], [w0, w1, r0, r1, x], tag)
+            elif op == 'afb2d_nonsep':
+                yield rt.Case('Z', 'afb2d_nonsep', [m if m != 6 else 0], [w0, w1, r0, r1, x], tag)
+            elif rng.random() < 0.5:
+                yield rt.Case('Z', 'DWTForward', [m, J, 4], [w0, w1, r0, r1, x], dict(tag, J=J))
+            else:
+                yield rt.Case('Z', 'DWTForward', [m, J, 2], [w0, w1, x], dict(tag, J=J, L2=L))
+        elif op == 'DWTInverse':
+            four = rng.random() < 0.5
+            Lr = L2 if four else L
+            hh, nlh = pyramid_shapes_1d(H, L, m, J); hw, nlw = pyramid_shapes_1d(W, Lr, m, J)
+            yl = gen.int_tensor(rng, (nb, c, nlh, nlw))
+            yh = []
+            for j in range(J):
+                can_none = True if j + 1 == J else (synlen(m, hh[j + 1], L) == hh[j] and synlen(m, hw[j + 1], Lr) == hw[j])
+                yh.append(None if (can_none and rng.random() < 0.25) else gen.int_tensor(rng, (nb, c, 3, hh[j], hw[j])))
+            wave = [w0, w1, r0, r1] if four else [w0, w1]
+            yield rt.Case('Z', 'DWTInverse', [m, len(wave)], wave + [yl] + yh, dict(tag, J=J))
+        elif op == 'SWTForward':
+            Js = rng.randint(1, 2 if q else 3)
+            hh = (2 ** Js) * rng.randint(1, 3); ww = (2 ** Js) * rng.randint(1, 3)
+            wave = [w0, w1, r0, r1] if rng.random() < 0.5 else [w0, w1]
+            yield rt.Case('Z', 'SWTForward', [rng.choice([2, 6]), Js, len(wave)], wave + [gen.int_tensor(rng, (nb, c, hh, ww))], dict(tag, J=Js))
+        elif op == 'afb2d_atrous':
+            d = rng.choice([1, 2, 4])
+            yield rt.Case('Z', 'afb2d_atrous', [6, d], [w0, w1, r0, r1, gen.int_tensor(rng, (nb, c, H, W))], dict(tag, d=d))
+        else:
+            raise ValueError(op)
+
+
+def std_run(ck, prop, module, theorems, corr_ops, n_corr_q, n_corr_t, oracle_fn, search_fn=None, rule=''):
+    """the common skeleton: Lean build + audit, correspondence, oracle, failing-input search"""
+    from .impl_dwt import IMPL
+    from .translate import regen_all
+    rt.setup_torch()
+    q = ck.tier == 'quick'
+    ck.trusted = TRUSTED
+    ck.extra['module'] = module
+    ck.extra['rule'] = rule
+    if not getattr(ck, 'no_lean', False):
+        ck.lean = rt.lean_check(prop, module, theorems, regen=regen_all)
+    st = rt.correspond('impl-model', dwt_cases(ck, n_corr_q if q else n_corr_t, corr_ops), IMPL)
+    ck.corr.append(st)
+    oracle_fn(ck, False)
+    if ((ck.lean is not None and not ck.lean.ok) or st.mismatches) and not ck.failures:
+        ck.notes.append('a proof obligation or the correspondence broke: extended failing-input search')
+        if search_fn:
+            search_fn(ck, st)
+        else:
+            oracle_fn(ck, True)
+    return st
